@@ -13,6 +13,9 @@ REGEXY = ["(?P<x>.*)", "[a-z]+", "\\d+", "^$", "a|b", "x{2,3}", "(?:", ".*?", "\
 WORDS = ["version", "release", "build", "name", "import os", "def main():", "return", "# comment", "title", "====",
          "license: MIT", "copyright", "see docs", "TODO", "x = y", "   indented", "", "", "end"]
 
+README_PEP_PATTERNS = ["YYYY.BUILD[PYTAGNUM]", "YY.BUILD[PYTAGNUM]", "YYYY.WW.BUILD[PYTAGNUM]", "MAJOR.MINOR.PATCH[PYTAGNUM]",
+                       "YYYY.MM.BUILD[PYTAGNUM]", "YYYY.MM.INC0[PYTAGNUM]", "YYYY.BUILD"]
+
 PATHS_SIMPLE = ["a.txt", "src/pkg/__init__.py", "docs/conf.py", "README.md", "lib/mod/version.txt", "CHANGES.rst",
                 "setup.py"]
 PATHS_ODD = ["sub dir/notes file.txt", "données/é.txt", "x'y.txt", "we ird/na,me.md"]
@@ -310,12 +313,17 @@ def gen_project(rng, mode="plain", syntaxes=None, allow_mixed=True, max_files=4,
             tree = rl.tokenize(pat["pattern"])
         else:
             pat = gp.gen_pattern(rng, family)
+            if force_pep and family is None and rng.random() < 0.1:
+                # the README's "PEP440: yes" examples: patterns that already are in normalised form, apart from BUILD
+                pat = {"pattern": rng.choice(README_PEP_PATTERNS), "family": "readme", "unit": None}
             tree = rp.tokenize(pat["pattern"])
         if rp.parts_of(tree):
             break
     vpattern = pat["pattern"]
     epoch = gp.gen_epoch(rng, gp.has_two_digit_year(tree))
     state = gp.gen_state(rng, tree, epoch)
+    if pat.get("family") == "readme" and "bid" in state and rng.random() < 0.4:
+        state["bid"] = rng.choice(["0033", "01001", "001999", "0999", "0001", "09998"])
     if zero_bid and "bid" in state and "BLD" not in rp.parts_of(tree) and rng.random() < 0.15:
         state["bid"] = rng.choice(["0", "00", "0000"])
     vtext = rp.render(tree, state)
